@@ -7,7 +7,8 @@ from ..prng import Rng
 from ..seams import CLOCK, F, T, reset_world, LIB_ERRORS
 from ..core import real
 from ..oracle import (ACCEPT, REJECT, EITHER, slack3, slack_tripped_int, validsig,
-                      ed_verify, pubkey_of_seed, as_key_arg, PREFIXES, DECORATIONS, SUFFIXES)
+                      ed_verify, pubkey_of_seed, as_key_arg, PREFIXES, DECORATIONS, SUFFIXES,
+                      LOCK_FORMS, LIMITS, in_form, code_of)
 
 PID = 'C14'
 ISOLATE = True      # one forked process per run: nothing a run does to process-global
@@ -121,6 +122,7 @@ def gen_step(rng, cell, clocks, vname, at_us, thr, fault_free):
             'gthr': rng.choice([60, 0, 1, 10 ** 6]), 'default_t': rng.chance(1, 8),
             'keys': rng.choice(['bytes', 'bytes', 'object']), 'prefix': rng.choice(PREFIXES),
             'cert_as': rng.choice(['bytes', 'object']), 'decor': rng.choice(DECORATIONS), 'suffix': rng.choice(SUFFIXES),
+            'form': rng.choice(LOCK_FORMS), 'limits': rng.below(len(LIMITS)),
             't': t, 'thr': thr, 'chain': chain, 'signer': '%s%d' % (pre, ln),
             'allowed': rng.choice(['00', '00', '01', '03', '80', 'c1']), 'flag': '00',
             'sigfields': {'sigfield%d' % k: rng.bytes(rng.choice([1, 16, 64, 64, 255, 256, 300])).hex()
@@ -373,6 +375,13 @@ def execute(plan, run):
             items = items + ([b'\xff'] if step['suffix'].startswith('true') else
                              [b'\x00'] if step['suffix'].startswith('false') else [])
         cache_in = dict(sf) if step.get('default_t') else {**sf, 'timestamp': step['t']}
+        lockf = real('lock in form ' + step.get('form', 'object'), in_form, lock,
+                     step.get('form', 'object'))
+        lim = LIMITS[step.get('limits', 0)]
+        if step.get('form', 'object') != 'object':
+            run.probe('lock_form_' + step['form'])
+        if lim:
+            run.probe('explicit_limits')
         CLOCK.latency_us = kn['latency_us']
         CLOCK.begin_call(step['validator'], step['faults'])
         try:
@@ -384,15 +393,16 @@ def execute(plan, run):
                 # ... while the process-wide default says something else
                 F.flags['ts_threshold'] = step.get('gthr', 60)
                 try:
-                    _, stk2, _ = F.run_script(w.bytes + lock.bytes, cache_in,
-                                              additional_flags={'ts_threshold': step['thr']})
+                    _, stk2, _ = F.run_script(w.bytes + code_of(lockf), cache_in,
+                                              additional_flags={'ts_threshold': step['thr']},
+                                              **lim)
                     r = stk2.list() == [b'\xff']
                 except LIB_ERRORS:
                     r = False
             else:
                 F.flags['ts_threshold'] = step['thr']
                 try:
-                    r = F.run_auth_scripts([w, lock], cache_in)
+                    r = F.run_auth_scripts([w, lockf], cache_in, **lim)
                 except BaseException as e:      # noqa
                     run.aux_auth_raised += 1
                     r = 'raised_' + type(e).__name__
